@@ -234,6 +234,11 @@ func (b *binding) callSet(v int, vs []int) {
 			bs[i] = uint8(x)
 		}
 		a = reflect.ValueOf(bs)
+		defer func() { // the caller re-uses its buffer after the call: a setter stores a COPY of its argument
+			for i := range bs {
+				bs[i] = ^bs[i]
+			}
+		}()
 	}
 	b.set.Call([]reflect.Value{a})
 }
@@ -331,6 +336,9 @@ func record(in, out string, n int) {
 		L := g.L + rng.Intn(2)*rng.Intn(4)
 		if b.buf == nil {
 			L = g.L
+		} else if b.len16 != nil && rng.Intn(6) == 0 {
+			// elements with a two-octet length hold more than 255 octets: sizes around the one-octet boundary and beyond
+			L = []int{254, 255, 256, 257, 258, 300, 511, 512, 513, 1000, 4096}[rng.Intn(11)]
 		}
 		p := Elem{Iei: -1, Len: -1, Oct: make([]int, L)}
 		fill := func() int {
@@ -363,7 +371,14 @@ func record(in, out string, n int) {
 		case b.argT.Kind() == reflect.Array:
 			vs = make([]int, b.argT.Len())
 		default:
-			vs = make([]int, rng.Intn(L+3))
+			switch rng.Intn(4) {
+			case 0:
+				vs = make([]int, L) // exactly the element's present size
+			case 1:
+				vs = make([]int, maxInt(0, L-1-rng.Intn(3)))
+			default:
+				vs = make([]int, rng.Intn(L+3))
+			}
 		}
 		for j := range vs {
 			vs[j] = fill()
@@ -372,6 +387,60 @@ func record(in, out string, n int) {
 	}
 	w.Close()
 	os.Stderr.WriteString("calls " + strconv.Itoa(3*n) + "\n")
+}
+
+func maxInt(a, b int) int {
+	if a > b {
+		return a
+	}
+	return b
+}
+
+// order: a fresh process in which the accessor of case `first` is the FIRST library call, followed by one case of every
+// accessor (priors all-ones and 0x55, the case's first value).  Whatever the library computes lazily on first use (tables,
+// caches, masks) is then initialised by that accessor: every other accessor must still read and write its own bits.
+func order(in, out string, first int) {
+	cs := load(in)
+	w := ev.Create(out)
+	pick := func(c *Case, want int) (*Elem, int, []int) {
+		g := &c.Groups[0]
+		p := &g.Priors[0]
+		for i := range g.Priors {
+			all := len(g.Priors[i].Oct) > 0
+			for _, o := range g.Priors[i].Oct {
+				if o != want {
+					all = false
+				}
+			}
+			if all {
+				p = &g.Priors[i]
+				break
+			}
+		}
+		v, vs := value(c.Kind, g.Values[0])
+		return p, v, vs
+	}
+	calls := 0
+	idx := []int{first}
+	for i := range cs {
+		if i != first {
+			idx = append(idx, i)
+		}
+	}
+	for _, i := range idx {
+		c := &cs[i]
+		if len(c.Groups) == 0 || len(c.Groups[0].Priors) == 0 || len(c.Groups[0].Values) == 0 {
+			continue
+		}
+		b := bind(c.Type, c.Field)
+		for _, want := range []int{255, 85} {
+			p, v, vs := pick(c, want)
+			w.Emit(b.run(c, p, v, vs))
+			calls += 3
+		}
+	}
+	w.Close()
+	os.Stderr.WriteString("calls " + strconv.Itoa(calls) + "\n")
 }
 
 type Job struct {
@@ -496,6 +565,9 @@ func main() {
 	case "record":
 		n, _ := strconv.Atoi(os.Args[4])
 		record(os.Args[2], os.Args[3], n)
+	case "order":
+		k, _ := strconv.Atoi(os.Args[4])
+		order(os.Args[2], os.Args[3], k)
 	case "digest":
 		digest(os.Args[2], os.Args[3])
 	default:
